@@ -170,7 +170,7 @@ def run_check(pid, spec, args, seed, work, t0):
 
     # build everything first (sequentially per distinct binary, in parallel across binaries)
     bins = {}
-    need = sorted({(j["pkg"], j.get("toolchain", "go"), bool(j.get("race")), j.get("kind") == "fuzz") for j in jobs})
+    need = sorted({(j["pkg"], j.get("toolchain", "go"), bool(j.get("race")), j.get("kind") == "fuzz") for j in jobs if j.get("kind") != "exec"})
     for s in spec.get("prebuild", []):
         run_prebuild(s, staged, work)
     with concurrent.futures.ThreadPoolExecutor(max_workers=4) as ex:
@@ -182,7 +182,7 @@ def run_check(pid, spec, args, seed, work, t0):
     procs = []
     for jidx, j in enumerate(jobs):
         n = (j["pkg"], j.get("toolchain", "go"), bool(j.get("race")), j.get("kind") == "fuzz")
-        binp = bins[n]
+        binp = bins.get(n)
         cfg = j[tier] if tier in j else j.get("quick")
         shards = cfg.get("shards", 1)
         if replay:
@@ -203,11 +203,27 @@ def run_check(pid, spec, args, seed, work, t0):
             env.update({k: str(v) for k, v in cfg.get("env", {}).items()})
             timeout = cfg.get("timeout", 1500 if tier == "quick" else 7200)
             cmd = [binp, "-test.run", "^(%s)$" % j["run"], "-test.count=1", "-test.timeout", "%ds" % timeout]
+            if j.get("kind") == "exec":
+                corpus = os.path.join(tmpd, "corpus")
+                os.makedirs(corpus, exist_ok=True)
+                for k, hx in enumerate(j.get("seed_corpus", [])):
+                    with open(os.path.join(corpus, "seed%d" % k), "wb") as f:
+                        f.write(bytes.fromhex(hx))
+                sub = {"{bin}": os.path.join(work, "bin"), "{tmp}": tmpd, "{corpus}": corpus, "{replays}": replay_dir, "{seconds}": str(cfg.get("seconds", 30)),
+                       "{seed}": str(rapid_seed(seed, jidx, sh)), "{jobs}": str(args.jobs)}
+                cmd = []
+                for c in j["cmd"]:
+                    for a, b in sub.items():
+                        c = c.replace(a, b)
+                    cmd.append(c)
+                if replay and replay.get("artifact"):
+                    cmd = [cmd[0], replay["artifact"]]
+                env["FUZZ_SOCK_DIR"] = tmpd
             if j.get("kind") == "fuzz":
                 cmd += ["-test.fuzz", "^%s$" % j["fuzz"], "-test.fuzztime", cfg.get("fuzztime", "30s"),
                         "-test.fuzzcachedir", os.path.join(work, "fuzzcache", j["name"]),
                         "-test.parallel", str(cfg.get("parallel", args.jobs))]
-            if j.get("rapid", True) and j.get("kind") != "fuzz":
+            if j.get("rapid", True) and j.get("kind") not in ("fuzz", "exec"):
                 cmd += ["-rapid.checks", str(cfg.get("checks", 100)), "-rapid.seed", str(rapid_seed(seed, jidx, sh)),
                         "-rapid.shrinktime", cfg.get("shrinktime", "20s")]
                 if replay and replay.get("failfile_content"):
@@ -224,7 +240,7 @@ def run_check(pid, spec, args, seed, work, t0):
                     with open(os.path.join(d, "replay"), "w") as f:
                         f.write(replay["fuzz_input"])
                     cmd = [binp, "-test.run", "^%s$/replay" % j["fuzz"], "-test.count=1"]
-            cwd = os.path.join(staged, j["pkg"])
+            cwd = os.path.join(staged, j["pkg"]) if j.get("kind") != "exec" else tmpd
             procs.append(Proc(j, sh, cmd, cwd, env, timeout + 60, statsfile, failfile))
 
     with concurrent.futures.ThreadPoolExecutor(max_workers=max(1, args.jobs)) as ex:
@@ -267,6 +283,17 @@ def run_check(pid, spec, args, seed, work, t0):
             for m in st.get("inconclusive") or []:
                 inconclusive.append("%s/%d: %s" % (jn, p.shard, m))
         out = p.out or ""
+        if p.job.get("kind") == "exec":
+            ex = [int(x) for x in re.findall(r"stat::number_of_executed_units:\s*(\d+)", out)]
+            nu = [int(x) for x in re.findall(r"stat::new_units_added:\s*(\d+)", out)]
+            if ex:
+                merged["evaluations"] += sum(ex)
+                pj["evaluations"] += sum(ex)
+                merged["extra"]["libfuzzer_execs:" + jn] = sum(ex)
+            if nu:
+                merged["extra"]["libfuzzer_new_units(coverage-distinct inputs):" + jn] = sum(nu)
+                merged["fp"].update("libfuzzer:%s:%d:%d" % (jn, p.shard, i) for i in range(sum(nu)))
+            st = st or {}
         if p.job.get("kind") == "fuzz":
             ex = [int(x) for x in re.findall(r"execs: (\d+)", out)]
             tot = [int(x) for x in re.findall(r"new interesting: \d+ \(total: (\d+)\)", out)]
@@ -280,7 +307,7 @@ def run_check(pid, spec, args, seed, work, t0):
             st = st or {}
         harness_viol = re.findall(r"VERIF-VIOLATION test=(\S+) replay=(\S*) summary=(.*)", out)
         if p.rc == 0:
-            if st is None and p.job.get("kind") != "fuzz":
+            if st is None and p.job.get("kind") not in ("fuzz", "exec"):
                 inconclusive.append("%s/%d: no statistics written" % (jn, p.shard))
             if harness_viol:
                 # a harness-recorded violation must fail the test; treat as violation anyway
@@ -311,7 +338,7 @@ def run_check(pid, spec, args, seed, work, t0):
 
     # executed-vs-requested for rapid jobs
     for p in procs:
-        if p.rc == 0 and p.job.get("rapid", True) and p.job.get("kind") != "fuzz" and not replay:
+        if p.rc == 0 and p.job.get("rapid", True) and p.job.get("kind") not in ("fuzz", "exec") and not replay:
             cfg = p.job[tier] if tier in p.job else p.job.get("quick")
             want = cfg.get("checks", 100)
             got = [int(x) for x in re.findall(r"OK, passed (\d+) tests", p.out or "")]
@@ -406,6 +433,9 @@ def save_replay(replay_dir, pid, p, seed, tname, summ):
         if os.path.exists(ff):
             with open(ff) as f:
                 rec["failfile_content"] = f.read()
+    ma = re.search(r"Test unit written to (\S+)", p.out or "")
+    if ma and os.path.exists(ma.group(1)):
+        rec["artifact"] = ma.group(1)
     m = re.search(r"Failing input written to (testdata/fuzz/\S+)", p.out or "")
     if m:
         fp = os.path.join(p.cwd, m.group(1))
